@@ -24,9 +24,10 @@ func init() {
 			"Added after blind round 6: CompactRange's selection is closed: the range grows to the keys of every selected file (guarded widening of both ends) and the search repeats until a round adds nothing (tree defect, repaired: c88b148 — whole files moved below older files that shared their out-of-range keys). " +
 			"Added after blind round 7: LoadSSTables describes every file afresh: each info filed under a level is allocated in that call with a reader opened in that call (Close nils the readers of old infos; CompactFiles skips inputs without a reader; callers delete every selected input). " +
 			"Added after blind round 8: in CompactRange the flag that repeats the search is set on every selection path (whichever end of the range the file widened); the engine's compaction manager hands the coordinator an executor only together with the tracker it was built with. " +
-			"Added after blind round 9: a loop of the strategy that collects overlapping files examines every file of the level (levels are in file-number order, overlapping files are not neighbours); the strategy's table readers are closed only with compactingMu held (a running cycle's iterators end silently when their reader is closed, the truncated output replaces the inputs).",
+			"Added after blind round 9: a loop of the strategy that collects overlapping files examines every file of the level (levels are in file-number order, overlapping files are not neighbours); the strategy's table readers are closed only with compactingMu held (a running cycle's iterators end silently when their reader is closed, the truncated output replaces the inputs). " +
+			"Added after blind round 10: the source-level files of a size-ratio or promotion task are the leading element(s) of the oldest-first list, not a subset picked by a per-file condition.",
 		NotDecided: "equality of merged views for all workloads (values); which selections a workload triggers; the interaction 'log file retired while its data is only in memory' (the code has no notion of flushed-up-to: remark, not verdict).",
-		Rules:      []func(*Ctx, *Reporter){ruleCompactSourceOrder, ruleMergePolicy, ruleCompactDecisionTable, ruleTombstoneFilterTable, ruleInputsOutliveOutputs, ruleOverlapsTable, ruleBuilderStrictOrder, ruleRecencyAtLoad, ruleRetention, ruleUnionRange, ruleSortKeysFromSortedSlice, ruleExecutorGetsTracker, ruleSelectionTakesOldest, ruleCompactRangeClosed, ruleLoadBuildsFreshInfos, ruleOneTombstoneTracker, ruleOverlapScansVisitEveryFile, ruleReadersClosedOnlyWhenIdle},
+		Rules:      []func(*Ctx, *Reporter){ruleCompactSourceOrder, ruleMergePolicy, ruleCompactDecisionTable, ruleTombstoneFilterTable, ruleInputsOutliveOutputs, ruleOverlapsTable, ruleBuilderStrictOrder, ruleRecencyAtLoad, ruleRetention, ruleUnionRange, ruleSortKeysFromSortedSlice, ruleExecutorGetsTracker, ruleSelectionTakesOldest, ruleCompactRangeClosed, ruleLoadBuildsFreshInfos, ruleOneTombstoneTracker, ruleOverlapScansVisitEveryFile, ruleReadersClosedOnlyWhenIdle, ruleSourceFilesAreAPrefix},
 	})
 }
 
